@@ -183,13 +183,14 @@ fn main() {
         "C20" => wl_ctor::run_c20(&mut ctx),
         _ => usage(),
     });
+    let s = ctx.summary_json();
+    match &out {
+        Some(p) => std::fs::write(p, serde_json::to_vec(&s).unwrap()).unwrap(),
+        None => println!("{}", serde_json::to_string_pretty(&s).unwrap()),
+    }
     if let Err(msg) = r {
+        // what was observed up to the failing case has been written; the orchestrator resumes after it
         eprintln!("HARNESS-PANIC case#{} [{}]: {}", ctx.cur_idx, ctx.cur_desc, msg);
         std::process::exit(3);
-    }
-    let s = ctx.summary_json();
-    match out {
-        Some(p) => std::fs::write(&p, serde_json::to_vec(&s).unwrap()).unwrap(),
-        None => println!("{}", serde_json::to_string_pretty(&s).unwrap()),
     }
 }
